@@ -94,7 +94,8 @@ func runC12(c *Ctx) {
 			if !pathExists(sub, do, r, nil, nil) {
 				continue
 			}
-			leak := pathExists(sub, do, r, factNil(vIs(derr), false), isOneOf(closes...))
+			// (a nil response has no body to close)
+			leak := pathExists(sub, do, r, anyFact(factNil(vIs(derr), false), factNil(vIs(resultOf(do, 0)), true)), isOneOf(closes...))
 			c.obI("R12.2", r, "body-close-deferred-before-return", !leak, "once client.Do succeeded, no return is reachable before res.Body.Close has been deferred (malformed content type, missing consumer and debug-dump failures included)", "a return after a successful Do leaves the response body open")
 		}
 		checkErrorsReturned(c, "R12.2", sub, 1, nil)
@@ -252,8 +253,8 @@ func runC12(c *Ctx) {
 			continue
 		}
 		n := calleeName(&call.Call)
-		if infallible[n] {
-			continue
+		if infallible[n] || isCloseWithError(call) {
+			continue // the error of CloseWithError itself is not a failure of the upload
 		}
 		ev := errValueOf(call)
 		if ev == nil {
@@ -276,14 +277,15 @@ func runC12(c *Ctx) {
 				gl, ok := ad.(*ssa.Global)
 				return ok && short(gl.String()) == "io.EOF"
 			}
-			if !((bo.X == ev && isE(bo.Y)) || (bo.Y == ev && isE(bo.X))) {
+			isEv := errAlias(ev)
+			if !((isEv(bo.X) && isE(bo.Y)) || (isEv(bo.Y) && isE(bo.X))) {
 				return false
 			}
 			return b == (bo.Op == token.EQL)
 		}
 		lost := false
 		for _, r := range realReturns(g) {
-			if pathExists(g, call, r, anyFact(factNil(vIs(ev), true), isEOF), isProp) {
+			if pathExists(g, call, r, anyFact(factNil(errAlias(ev), true), isEOF), isProp) {
 				lost = true
 			}
 		}
@@ -450,20 +452,19 @@ func failsPipeWith(in ssa.Instruction, ev ssa.Value) bool {
 	if !ok {
 		return false
 	}
-	name := calleeName(ci.Common())
-	if name == "(*io.PipeWriter).CloseWithError" {
+	if isCloseWithError(ci) {
 		_, a := callArgs(ci.Common())
-		return someOrigin(a[0], oIsValue(ev))
+		return a[0] == ev || someOrigin(a[0], oIsValue(ev))
 	}
 	callee := ci.Common().StaticCallee()
 	if callee == nil || callee.Blocks == nil || !isRepoPath(fnPkgPath(callee)) {
 		return false
 	}
 	for i, arg := range ci.Common().Args {
-		if i >= len(callee.Params) || !someOrigin(arg, oIsValue(ev)) {
+		if i >= len(callee.Params) || (arg != ev && !someOrigin(arg, oIsValue(ev))) {
 			continue
 		}
-		for _, k := range callsIn(callee, "(*io.PipeWriter).CloseWithError") {
+		for _, k := range closeWithErrorCalls(callee) {
 			_, a := callArgs(k.Common())
 			if a[0] == ssa.Value(callee.Params[i]) && dominatesAllReturns(callee, k) {
 				return true
@@ -479,17 +480,37 @@ func failsPipe(in ssa.Instruction) bool {
 	if !ok {
 		return false
 	}
-	if calleeName(ci.Common()) == "(*io.PipeWriter).CloseWithError" {
+	if isCloseWithError(ci) {
 		return true
 	}
 	callee := ci.Common().StaticCallee()
 	if callee == nil || callee.Blocks == nil || !isRepoPath(fnPkgPath(callee)) {
 		return false
 	}
-	for _, k := range callsIn(callee, "(*io.PipeWriter).CloseWithError") {
+	for _, k := range closeWithErrorCalls(callee) {
 		if dominatesAllReturns(callee, k) {
 			return true
 		}
 	}
 	return false
+}
+
+// isCloseWithError: a call that fails the read end of a pipe with an error — (*io.PipeWriter).CloseWithError, or the
+// same method invoked through an interface the pipe writer was passed as.
+func isCloseWithError(ci ssa.CallInstruction) bool {
+	cc := ci.Common()
+	if cc.IsInvoke() {
+		return cc.Method.Name() == "CloseWithError"
+	}
+	return calleeName(cc) == "(*io.PipeWriter).CloseWithError"
+}
+
+func closeWithErrorCalls(f *ssa.Function) []ssa.CallInstruction {
+	var out []ssa.CallInstruction
+	for _, ci := range allCalls(f) {
+		if isCloseWithError(ci) {
+			out = append(out, ci)
+		}
+	}
+	return out
 }
